@@ -46,6 +46,12 @@ import (
 // hands out lists whose elements share every nested value with it, and a write that edits a nested value
 // in place would otherwise edit the oracle's "before" along with the store.
 //
+// The ELEMENTS part of a delete filter is a dimension of its own (c04_elements.go): one element, two elements, SUB
+// elements of a structured element ({timePeriod:{endTime:{}}}, aimed at sub elements a changeable element holds),
+// alone, next to a selector and next to every kind of partial part (identifiers, selector, identifier-less). For a
+// filter naming sub elements (f) accepts both readings the statement leaves open (the named sub elements go / the
+// element that was named goes); (a)-(e) do not depend on the reading.
+//
 // One history in three is BLIND: the store is set once and never read while 2-3 writes are delivered;
 // the reference is carried forward from the verdicts on the tap alone (error result: unchanged; success:
 // the fold) and the store is read once at the end                                 blind/<deviation>
@@ -66,13 +72,20 @@ var c04FlagField = map[model.FunctionType]string{
 
 var c04Shapes = []string{"full", "partial-ids", "partial-ids+unknown", "partial-ids+flag", "noid", "noid+flag", "selector", "selector+flag",
 	"delete-selector", "delete-elements", "delete-elements(flag)", "delete-selector-elements", "delete-selector-elements(flag)", "delete-selector+partial-ids", "delete-elements+partial-ids", "delete-selector+selector",
-	"selector(empty)", "delete-selector(empty)", "two-cmds"}
+	"selector(empty)", "delete-selector(empty)", c04OtherCombo, "two-cmds"}
+
+// c04OtherCombo: focal shape standing for the combinations of a delete part and a partial part that have no shape
+// of their own above; a write drawn for it carries the name of the concrete combination (signatures, classes).
+const c04OtherCombo = "delete+partial(other)"
+
+var c04OtherCombos = []string{"delete-selector-elements+partial-ids", "delete-selector-elements+selector", "delete-elements+selector",
+	"delete-selector+noid", "delete-elements+noid", "delete-selector-elements+noid"}
 
 // shapes a blind history draws from: those for which the statement fixes the outcome of an accepted write
 // and that lie outside the open findings D3/D6 (a full write and every write mentioning the flag are judged
 // write by write only, where the known deviation can be told from a new one)
 var c04BlindShapes = []string{"partial-ids", "partial-ids+unknown", "noid", "selector", "delete-selector", "delete-elements", "delete-selector-elements",
-	"delete-selector+partial-ids", "delete-elements+partial-ids", "delete-selector+selector", "delete-selector(empty)"}
+	"delete-selector+partial-ids", "delete-elements+partial-ids", "delete-selector+selector", "delete-selector(empty)", c04OtherCombo}
 
 // sub-shapes of the two commands of a "two-cmds" datagram
 var c04SubShapes = []string{"partial-ids", "selector", "delete-selector", "delete-selector-elements", "noid"}
@@ -83,7 +96,8 @@ func init() {
 	rig.Register(&rig.Check{
 		ID:    "C04",
 		Floor: 200,
-		Rule: "case = (list function of {loadControlLimitListData, setpointListData, deviceConfigurationKeyValueListData, two flag-less controls}, focal write shape of 19, block): histories of 1-3 real write datagrams " +
+		Rule: "case = (list function of {loadControlLimitListData, setpointListData, deviceConfigurationKeyValueListData, two flag-less controls}, focal write shape of 20, block): histories of 1-3 real write datagrams " +
+			"(delete filters name one or two elements or sub elements of a structured element; the focal shape delete+partial(other) stands for the six combinations of a delete part and a partial part without a shape of their own) " +
 			"from a bound peer against a list of 1-4 identified elements (stored in any order, one list in six with an additional element without identifier) with flags true/false/absent (60% of the writes have the focal shape, the others a random one; " +
 			"one flag-mentioning write in three carries nothing but the flag; selectors name one identifier or nothing at all; one shape puts two commands into one datagram), every write judged against a deep copy of the state before it; " +
 			"whenever the write leaves an element unaddressed the same write is also sent to a second World that differs only in that element's flag (or presence) and the verdicts are compared. " +
@@ -94,6 +108,7 @@ func init() {
 			"accepted = success result (ack requested) or silence (no ack requested); rejected = error result",
 			"the addressed set: identifiers of a partial write, the selector match (every element for a selector that names no field), every element for identifier-less, delete-elements and filter-less writes; for a datagram with two commands the union",
 			"what an accepted partial write through a selector that selects several elements leaves behind is not fixed by the statement: (f) is not applied to selector(empty); an accepted delete through the empty selector has deleted every element",
+			"a delete filter whose elements name SUB elements of a structured element has, when accepted, removed the named sub elements from every element it addresses; whether their siblings inside the structured element stay or go is not fixed by the statement: both states are accepted (per command); everything else (protected, unaddressed, error => exactly unchanged) is demanded as for any other write",
 			"a write is the write datagram: a success result for a datagram with two commands says that the changes of both commands are applied",
 			"that a write addressing only changeable elements is accepted is not demanded (C03); it is counted as expected-accept-but-rejected",
 			"the items of a datagram are taken as the receiver decodes them (JSON fidelity is C18's subject)",
@@ -121,10 +136,15 @@ type c04Write struct {
 	all       bool         // addresses every element
 	flagShape bool         // the write mentions the flag
 	flagOnly  bool         // ... and nothing else
+	elemText  string       // the elements part of the delete filter, rendered
+	elemForm  string       // what the elements part of the delete filter names: one | two | sub | two(sub) (c04_elements.go)
 }
 
 func (w *c04Write) String() string {
 	s := w.u.String()
+	if w.elemText != "" {
+		s += " [delete filter names " + w.elemText + "]"
+	}
 	if w.emptySel {
 		s += " [selector replaced by the empty selector {}]"
 	}
@@ -392,9 +412,14 @@ func c04GenWrite(c *rig.Ctx, li *rig.ListInfo, shape string, old []reflect.Value
 		w.u.Kind, w.all = "delete-elem", true
 		if w.flagShape {
 			w.u.DelElem = []int{li.WriteCheck}
-		} else if len(pf) > 0 {
-			w.u.DelElem = []int{pf[r.Intn(len(pf))]}
-		} else {
+			if !w.flagOnly && len(pf) > 0 { // the filter names payload elements next to the flag
+				var form string
+				if form, ok = c04DrawElements(r, li, &w.u, old); ok {
+					w.u.DelElem = append([]int{li.WriteCheck}, w.u.DelElem...)
+					w.elemForm = "flag+" + form
+				}
+			}
+		} else if w.elemForm, ok = c04DrawElements(r, li, &w.u, old); !ok {
 			return w, false
 		}
 	case "delete-selector-elements", "delete-selector-elements(flag)":
@@ -404,9 +429,14 @@ func c04GenWrite(c *rig.Ctx, li *rig.ListInfo, shape string, old []reflect.Value
 		w.u.Kind, w.u.DelSel = "delete-sel-elem", pick()
 		if w.flagShape {
 			w.u.DelElem = []int{li.WriteCheck}
-		} else if len(pf) > 0 {
-			w.u.DelElem = []int{pf[r.Intn(len(pf))]}
-		} else {
+			if !w.flagOnly && len(pf) > 0 { // the filter names payload elements next to the flag
+				var form string
+				if form, ok = c04DrawElements(r, li, &w.u, old); ok {
+					w.u.DelElem = append([]int{li.WriteCheck}, w.u.DelElem...)
+					w.elemForm = "flag+" + form
+				}
+			}
+		} else if w.elemForm, ok = c04DrawElements(r, li, &w.u, old); !ok {
 			return w, false
 		}
 		w.addressed[w.u.DelSel] = true
@@ -428,7 +458,9 @@ func c04GenWrite(c *rig.Ctx, li *rig.ListInfo, shape string, old []reflect.Value
 			return w, false
 		}
 		w.u.Kind, w.all = "del+partial", true
-		w.u.DelElem = []int{pf[r.Intn(len(pf))]}
+		if w.elemForm, ok = c04DrawElements(r, li, &w.u, old); !ok {
+			return w, false
+		}
 		for _, id := range subset() {
 			w.u.Items = append(w.u.Items, c04Item(c, li, id))
 			w.addressed[id] = true
@@ -440,6 +472,43 @@ func c04GenWrite(c *rig.Ctx, li *rig.ListInfo, shape string, old []reflect.Value
 		w.u.Kind, w.u.DelSel, w.u.SelKey = "del+sel", pick(), pick()
 		w.u.Items = []reflect.Value{c04Item(c, li, -1)}
 		w.addressed[w.u.DelSel], w.addressed[w.u.SelKey] = true, true
+	case c04OtherCombo:
+		return c04GenWrite(c, li, c04OtherCombos[r.Intn(len(c04OtherCombos))], old)
+	case "delete-selector-elements+partial-ids", "delete-selector-elements+selector", "delete-elements+selector",
+		"delete-selector+noid", "delete-elements+noid", "delete-selector-elements+noid":
+		parts := strings.SplitN(shape, "+", 2)
+		if strings.Contains(parts[0], "selector") {
+			if !li.SelCoversKeys {
+				return w, false
+			}
+			w.u.DelSel = pick()
+			w.addressed[w.u.DelSel] = true
+		} else {
+			w.all = true
+		}
+		if strings.Contains(parts[0], "elements") {
+			if w.elemForm, ok = c04DrawElements(r, li, &w.u, old); !ok {
+				return w, false
+			}
+		}
+		switch parts[1] {
+		case "partial-ids":
+			w.u.Kind = "del+partial"
+			for _, id := range subset() {
+				w.u.Items = append(w.u.Items, c04Item(c, li, id))
+				w.addressed[id] = true
+			}
+		case "selector":
+			if !li.SelCoversKeys {
+				return w, false
+			}
+			w.u.Kind, w.u.SelKey = "del+sel", pick()
+			w.u.Items = []reflect.Value{c04Item(c, li, -1)}
+			w.addressed[w.u.SelKey] = true
+		default:
+			w.u.Kind, w.all = "del+noid", true
+			w.u.Items = []reflect.Value{c04Item(c, li, -1)}
+		}
 	case "two-cmds":
 		// two commands in one write datagram, each of a plain shape; both are drawn against the same list
 		a, oka := c04GenWrite(c, li, c04SubShapes[r.Intn(len(c04SubShapes))], old)
@@ -448,6 +517,8 @@ func c04GenWrite(c *rig.Ctx, li *rig.ListInfo, shape string, old []reflect.Value
 			return w, false
 		}
 		w.u, w.u2, w.all = a.u, &b.u, a.all || b.all
+		w.elemForm = strings.Trim(a.elemForm+"|"+b.elemForm, "|")
+		w.elemText = strings.Trim(a.elemText+" | "+b.elemText, " |")
 		for id := range a.addressed {
 			w.addressed[id] = true
 		}
@@ -458,8 +529,12 @@ func c04GenWrite(c *rig.Ctx, li *rig.ListInfo, shape string, old []reflect.Value
 	default:
 		return w, false
 	}
-	if _, _, fok := li.Filters(w.u); !fok {
+	_, fd, fok := li.Filters(w.u)
+	if !fok {
 		return w, false
+	}
+	if len(w.u.DelElem) > 0 && fd != nil {
+		w.elemText = c04Presence(reflect.ValueOf(fd).Elem().Field(li.ElIdx))
 	}
 	return w, true
 }
@@ -524,6 +599,12 @@ func c04Wire(lw *listWorld, w *c04Write, ack bool) ([]byte, []rig.Update, model.
 			return nil, nil, mc, fmt.Errorf("payload decodes to %T", cd.Value)
 		}
 		us[i].Items = c04DeepItems(li.Items(cd.Value))
+		if len(us[i].DelElem) > 0 {
+			_, fdDec := d.Datagram.Payload.Cmd[i].ExtractFilter()
+			if err := c04CheckElementsDecoded(li, us[i], fdDec); err != nil {
+				return nil, nil, mc, err
+			}
+		}
 		if w.emptySel {
 			fp, fd := d.Datagram.Payload.Cmd[i].ExtractFilter()
 			n := 0
@@ -543,28 +624,12 @@ func c04Wire(lw *listWorld, w *c04Write, ack bool) ([]byte, []rig.Update, model.
 	return b, us, mc, nil
 }
 
-// c04Fold: the data an accepted write leaves behind according to the statement (all of its changes applied;
-// flags are compared separately). An empty selector selects every element. ok=false: the statement does not
-// fix the result (a partial write through a selector that selects several elements).
-func c04Fold(li *rig.ListInfo, w *c04Write, pre []reflect.Value, urs []rig.Update) (exp []reflect.Value, ok bool) {
-	if w.emptySel {
-		if w.shape == "delete-selector(empty)" {
-			return nil, true
-		}
-		return nil, false
-	}
-	exp = pre
-	for _, ur := range urs {
-		exp = li.RefApply(exp, ur)
-	}
-	return exp, true
-}
-
 type c04Verdict struct {
 	accepted, answered bool
 	resp               string
 	devs               []string // deviation classes
 	detail             string
+	notJudged          string // a clause that could not be applied to this write (counted)
 }
 
 func (v *c04Verdict) add(d string) {
@@ -663,16 +728,19 @@ func c04Send(c *rig.Ctx, lw *listWorld, w *c04Write, old []reflect.Value, ack bo
 	}
 	// (f) success => all changes applied: the fold, flags carried over from the old data
 	if v.accepted && !elementLevel {
-		if exp, ok := c04Fold(li, w, pre, urs); ok && rig.Multiset(c04NoFlag(li, got)) != rig.Multiset(c04NoFlag(li, exp)) {
+		if exp, ok := c04Folds(li, w, pre, urs); ok && !c04MatchesOne(li, got, exp) {
+			first, _ := c04Folds(li, w, pre, urs[:1])
 			switch {
 			case w.shape == "partial-ids+unknown":
 				v.add("unknown-id-acked-not-applied")
-			case w.u2 != nil && rig.Multiset(c04NoFlag(li, got)) == rig.Multiset(c04NoFlag(li, li.RefApply(pre, urs[0]))):
+			case w.u2 != nil && c04MatchesOne(li, got, first):
 				v.add("acked-but-second-command-not-applied")
 			default:
 				v.add("acked-but-differs")
 			}
-			v.detail = "fold (flags aside): " + renderItems(c04NoFlag(li, exp))
+			v.detail = "fold (flags aside): " + c04RenderCands(li, exp)
+		} else if !ok {
+			v.notJudged = "acked-state"
 		}
 	}
 	if len(v.devs) > 0 {
@@ -686,7 +754,8 @@ func c04Send(c *rig.Ctx, lw *listWorld, w *c04Write, old []reflect.Value, ack bo
 func c04Blind(c *rig.Ctx, lw *listWorld, focal string, start []reflect.Value) (judged, accepted, rejected int, hist []string) {
 	li, r := lw.li, c.Rand
 	initial := c04DeepItems(start)
-	ref := c04DeepItems(start)
+	// the states the statement allows after the writes so far: one, unless an accepted delete named sub elements
+	refs := [][]reflect.Value{c04DeepItems(start)}
 	lw.local.SetData(li.Fn, li.MkList(c04DeepItems(start)))
 	eligible := false
 	for _, s := range c04BlindShapes {
@@ -696,15 +765,17 @@ func c04Blind(c *rig.Ctx, lw *listWorld, focal string, start []reflect.Value) (j
 	}
 	writes := 2 + r.Intn(2)
 	broken := false
-	for k := 0; k < writes && len(ref) > 0; k++ {
+	for k := 0; k < writes && len(refs[0]) > 0; k++ {
 		shape := focal
 		if !eligible || r.Intn(5) >= 3 {
 			shape = c04BlindShapes[r.Intn(len(c04BlindShapes))]
 		}
+		ref := refs[0]
 		w, ok := c04GenWrite(c, li, shape, ref)
 		if !ok {
 			continue
 		}
+		shape = w.shape
 		ack := r.Intn(6) != 0
 		v, urs := c04Deliver(lw, &w, ack)
 		for _, d := range v.devs {
@@ -723,15 +794,25 @@ func c04Blind(c *rig.Ctx, lw *listWorld, focal string, start []reflect.Value) (j
 		if v.accepted {
 			verdict = "accepted"
 			accepted++
-			exp, ok := c04Fold(li, &w, ref, urs)
-			if !ok {
-				broken = true
+			var next [][]reflect.Value
+			for _, rf := range refs {
+				exp, ok := c04Folds(li, &w, rf, urs)
+				if !ok {
+					broken = true
+					break
+				}
+				for _, e := range exp {
+					next = append(next, c04DeepItems(e))
+				}
+			}
+			if broken {
 				break
 			}
-			ref = c04DeepItems(exp)
+			refs = c04Dedup(li, next)
 		} else {
 			rejected++
 		}
+		c04CountElements(c, li, &w, ref, "blind-", verdict)
 		c.Count("blind-writes:"+shape+":"+verdict, 1)
 		hist = append(hist, fmt.Sprintf("%s %s -> %s (%s)", shape, w.String(), verdict, v.resp))
 	}
@@ -757,7 +838,7 @@ func c04Blind(c *rig.Ctx, lw *listWorld, focal string, start []reflect.Value) (j
 			devs = append(devs, "flag-altered")
 		}
 	}
-	if rig.Multiset(c04NoFlag(li, got)) != rig.Multiset(c04NoFlag(li, ref)) {
+	if !c04MatchesOne(li, got, refs) {
 		if accepted == 0 {
 			devs = append(devs, "rejected-but-changed")
 		} else {
@@ -771,12 +852,15 @@ func c04Blind(c *rig.Ctx, lw *listWorld, focal string, start []reflect.Value) (j
 		}
 		seen[d] = true
 		c.Violate("blind/"+d, "%s: %d writes delivered back to back without reading the store (error result: data unchanged, success: all changes applied)\n initial:  %s\n history:\n   %s\n expected: %s\n read:     %s",
-			li.Fn, judged, renderItems(initial), strings.Join(hist, "\n   "), renderItems(ref), renderItems(got))
+			li.Fn, judged, renderItems(initial), strings.Join(hist, "\n   "), c04RenderCands(li, refs), renderItems(got))
 	}
 	if len(devs) > 0 {
-		c.Witness(map[string]any{"function": li.Fn, "blind_history": hist, "initial": renderItems(initial), "expected": renderItems(ref), "read": renderItems(got)})
+		c.Witness(map[string]any{"function": li.Fn, "blind_history": hist, "initial": renderItems(initial), "expected": c04RenderCands(li, refs), "read": renderItems(got)})
 	}
 	c.Count("blind_histories", 1)
+	if len(refs) > 1 {
+		c.Count("blind_histories_with_several_allowed_states", 1)
+	}
 	return judged, accepted, rejected, hist
 }
 
@@ -882,6 +966,7 @@ func c04Case(c *rig.Ctx) {
 			if !ok {
 				continue
 			}
+			shape = w.shape
 			ack := r.Intn(6) != 0
 			v := c04Send(c, A, &w, cur, ack)
 			if !v.answered && len(v.devs) == 0 {
@@ -900,6 +985,10 @@ func c04Case(c *rig.Ctx) {
 			if w.flagOnly {
 				c.Count("flag-only-writes:"+shape+":"+verdict, 1)
 			}
+			if v.notJudged != "" {
+				c.Count("not-judged:"+v.notJudged+":"+shape, 1)
+			}
+			c04CountElements(c, li, &w, cur, "", verdict)
 			// what the statement lets one expect where it speaks: all addressed elements exist and are changeable
 			expectAccept := true
 			exist := map[int]bool{}
@@ -914,7 +1003,7 @@ func c04Case(c *rig.Ctx) {
 			if w.u2 == nil && (w.u.Kind == "partial" || w.u.Kind == "del+partial") {
 				for _, it := range w.u.Items {
 					for id := 0; id < c04Dom; id++ {
-						if li.Matches(it, id) && (!exist[id] || id == w.u.DelSel) {
+						if li.Matches(it, id) && (!exist[id] || (id == w.u.DelSel && len(w.u.DelElem) == 0)) {
 							expectAccept = false // a partial write naming an element that does not exist (any more)
 						}
 					}
